@@ -61,7 +61,9 @@ ASSUMPTIONS = [
     'cancellation (ratio > 1e6) are excluded and counted; cells whose formula is undefined (zero variance, non-positive pair variance, zero initial '
     'likelihood, exact ties of the LR test) are skipped and counted, not compared; so are pairwise tests whose variance '
     'var(i) + var(j) - 2 cov(i,j) is a near cancellation (below 1e-4 of var(i) + var(j) + 2|cov(i,j)|: ill-conditioned; it '
-    'occurs only for K >= 4 in the enumerated space)',
+    'occurs only for K >= 4 in the enumerated space) and standard errors of a variance that is exactly zero by the formula '
+    'while the library\'s own matrix holds negative rounding noise there (the sign of a computed zero is arbitrary; the '
+    'library then reports the largest float; the matrix entry itself is still compared with 0)',
     'p-values are compared with an absolute tolerance of 1e-12 (+ propagated 1e-10 relative error of t): for |t| > 7 all '
     'p-values are indistinguishable from 0 at that tolerance',
     'text views (print_general_statistics, short_summary, __str__, get_html, get_f12) are compared after formatting the '
@@ -432,6 +434,32 @@ def fmt_variants(ref, spec):
     return out
 
 
+SKIP_COUNTERS = {'ill-conditioned': 'cells_skipped_ill_conditioned_pair_variance',
+                 'fragile-zero': 'cells_skipped_fragile_sign_of_zero_variance'}
+
+
+def fragile_zero_variances(r, m, ref):
+    """(family, i) whose variance is exactly zero by the defining formula while the library's own floating-point
+    matrix holds a negative rounding-noise figure there (-1e-34 ...): the sign of a computed zero is arbitrary, the
+    square root of that diagonal entry is not defined (the library then reports the largest float instead of ~0) -
+    a fragile branch: the standard-error cell is excluded and counted; the matrix entry itself is still compared."""
+    out = set()
+    for fam, pre in (('classical', ''), ('robust', 'robust_'), ('bootstrap', 'bootstrap_')):
+        f = ref['fam'][fam]
+        mat = getattr(r.data, pre + 'varCovar', None)
+        if f is None or mat is None:
+            continue
+        scale = max(1.0, max(abs(x) for row in f['cov'] for x in row))
+        for i in range(m['k']):
+            if isnum(f['se'][i]) and f['se'][i] == 0.0 and -ATOL * scale <= mat[i, i] < 0:
+                out.add((fam, i))
+    return out
+
+
+def se_ref(ck, fam, i):
+    return 'fragile-zero' if (fam, i) in ck.fragile else ck.ref['fam'][fam]['se'][i]
+
+
 class Checker:
     """Compares cells with the reference; builds finding keys '<ID>|<view>[<label>]|holds:<diagnosis>'."""
 
@@ -440,6 +468,7 @@ class Checker:
         self.compared = 0
         self.skipped = 0
         self.bad = 0
+        self.fragile = frozenset()
 
     # named reference quantities used to diagnose what a wrong cell actually holds
     def named_param(self, i):
@@ -509,8 +538,7 @@ class Checker:
         """ref: float | None (must be absent/None) | 'undefined' (skipped)."""
         if isinstance(ref, str):
             self.skipped += 1
-            self.rec.count('cells_skipped_ill_conditioned_pair_variance' if ref == 'ill-conditioned' else
-                           'cells_skipped_formula_undefined')
+            self.rec.count(SKIP_COUNTERS.get(ref, 'cells_skipped_formula_undefined'))
             return
         if ref is None:
             self.compared += 1
@@ -524,8 +552,7 @@ class Checker:
     def text(self, view, label, where, txt, ref, spec, named, expected_name):
         if isinstance(ref, str) or ref is None:
             self.skipped += 1
-            self.rec.count('cells_skipped_ill_conditioned_pair_variance' if ref == 'ill-conditioned' else
-                           'cells_skipped_formula_undefined')
+            self.rec.count(SKIP_COUNTERS.get(ref, 'cells_skipped_formula_undefined'))
             return
         self.compared += 1
         if txt.strip() not in fmt_variants(ref, spec):
@@ -608,6 +635,8 @@ def general_ref(ck, key):
 
 def param_ref(ck, i, fam, field):
     f = ck.ref['fam'][fam]
+    if f is not None and field == 'se':
+        return se_ref(ck, fam, i)
     return None if f is None else f[field][i]
 
 
@@ -646,7 +675,8 @@ def view_data(r, ck):
             named = ck.named_param(i)
             b = d.betas[i]
             for attr, field in (('stdErr', 'se'), ('tTest', 't'), ('pValue', 'p')):
-                ck.num('data', f'betas.{pre}{attr}', f'{m["names"][i]}', getattr(b, pre + attr), f[field][i], named,
+                ck.num('data', f'betas.{pre}{attr}', f'{m["names"][i]}', getattr(b, pre + attr),
+                       se_ref(ck, fam, i) if field == 'se' else f[field][i], named,
                        f'{fam} {FIELD_NAME[field]}', param_tol(ck, i, fam, field))
             for j in range(k):
                 np_ = ck.named_pair(i, j)
@@ -843,10 +873,12 @@ def run_views(r, m, ref, case, tag, okey, rec, views=None):
     for si, sub in enumerate(subsets_of(m['names'], m.get('subsets') or ('all' if m['k'] <= 3 else 'few'))):
         plan.append((f'correlation:subset#{si}', lambda ck, sub=sub: view_correlation(r, ck, sub)))
     plan += text_views(r, m)
+    fragile = fragile_zero_variances(r, m, ref)
     for vname, fn in plan:
         if views and vname not in views:
             continue
         ck = Checker(rec, case, m, ref, tag)
+        ck.fragile = fragile
         try:
             fn(ck)
             raised = None
